@@ -10,7 +10,9 @@ package main
 //	SCloseListeners        for _, l := range srv.tcpListener { l.Close() }
 //	SShutdownWebsockets    for _, ws := range srv.websocketServer { ws.Server.Shutdown(ctx) }
 //	SLock / SUnlock        srv.mu.Lock() / srv.mu.Unlock()
-//	SSnapshotCloseClients  for _, c := range srv.clients { chs[i] = c.closed; i++; c.Close() }
+//	SSnapshotCloseClients     for _, c := range srv.clients { chs = append(chs, c.closed); c.Close() }   (or chs[i] = c.closed; i++)
+//	SSnapshotCloseConnecting  for c := range srv.connecting { chs = append(chs, c.closed); c.Close() }
+//	                          (srv.connecting: accepted connections that have not registered a client id)
 //	SStartWaiter           if len(chs) != 0 { go func() { for .. { <-v }; close(done) }() } else { close(done) }
 //	SWait                  select { case <-ctx.Done(): ...; return   case <-done: <rest> }
 //	SUnload                for _, v := range srv.plugins { ... v.Unload() ... }      (inside `case <-done`)
@@ -175,7 +177,7 @@ func genStopOrder(l *Loader) (string, string, error) {
 				return "", "", fmt.Errorf("Stop: %s: call %s not understood", where, exprString(c.Fun))
 			}
 		case *ast.RangeStmt:
-			if s.Value == nil {
+			if s.Value == nil && exprString(s.X) != recv+".connecting" {
 				return "", "", fmt.Errorf("Stop: %s: range without value variable", where)
 			}
 			v := exprString(s.Value)
@@ -192,31 +194,48 @@ func genStopOrder(l *Loader) (string, string, error) {
 					return "", "", fmt.Errorf("Stop: %s: the loop over websocketServer does not just call %s.Server.Shutdown()", where, v)
 				}
 				add("SShutdownWebsockets", s.Pos())
-			case recv + ".clients":
+			case recv + ".clients", recv + ".connecting":
+				// `for _, c := range srv.clients` / `for c := range srv.connecting` (a set keyed by *client)
+				isSet := exprString(s.X) == recv+".connecting"
+				if isSet {
+					if s.Value != nil {
+						return "", "", fmt.Errorf("Stop: %s: the loop over connecting must range over the keys", where)
+					}
+					v = exprString(s.Key)
+				}
 				records, closes := false, false
 				for _, bs := range s.Body.List {
 					switch b := bs.(type) {
 					case *ast.AssignStmt:
-						if len(b.Rhs) == 1 && exprString(b.Rhs[0]) == v+".closed" {
-							records = true
-						} else {
-							return "", "", fmt.Errorf("Stop: %s: assignment in the loop over clients not understood", l.Pos(bs.Pos()))
+						// chs[i] = c.closed   or   chs = append(chs, c.closed)
+						ok := len(b.Rhs) == 1 && exprString(b.Rhs[0]) == v+".closed"
+						if c, isCall := b.Rhs[0].(*ast.CallExpr); len(b.Rhs) == 1 && isCall && exprString(c.Fun) == "append" && len(c.Args) == 2 &&
+							len(b.Lhs) == 1 && exprString(c.Args[0]) == exprString(b.Lhs[0]) && exprString(c.Args[1]) == v+".closed" {
+							ok = true
 						}
+						if !ok {
+							return "", "", fmt.Errorf("Stop: %s: assignment in the loop over %s not understood", l.Pos(bs.Pos()), exprString(s.X))
+						}
+						records = true
 					case *ast.IncDecStmt:
 					case *ast.ExprStmt:
 						if strings.HasPrefix(exprString(b.X), v+".Close(") {
 							closes = true
 						} else {
-							return "", "", fmt.Errorf("Stop: %s: call in the loop over clients not understood", l.Pos(bs.Pos()))
+							return "", "", fmt.Errorf("Stop: %s: call in the loop over %s not understood", l.Pos(bs.Pos()), exprString(s.X))
 						}
 					default:
-						return "", "", fmt.Errorf("Stop: %s: statement in the loop over clients not understood", l.Pos(bs.Pos()))
+						return "", "", fmt.Errorf("Stop: %s: statement in the loop over %s not understood", l.Pos(bs.Pos()), exprString(s.X))
 					}
 				}
 				if !records || !closes {
-					return "", "", fmt.Errorf("Stop: %s: the loop over clients must record %s.closed and call %s.Close() (records=%v closes=%v)", where, v, v, records, closes)
+					return "", "", fmt.Errorf("Stop: %s: the loop over %s must record %s.closed and call %s.Close() (records=%v closes=%v)", where, exprString(s.X), v, v, records, closes)
 				}
-				add("SSnapshotCloseClients", s.Pos())
+				if isSet {
+					add("SSnapshotCloseConnecting", s.Pos())
+				} else {
+					add("SSnapshotCloseClients", s.Pos())
+				}
 			default:
 				return "", "", fmt.Errorf("Stop: %s: loop over %s not understood", where, exprString(s.X))
 			}
@@ -323,7 +342,7 @@ func genStopOrder(l *Loader) (string, string, error) {
 	b.WriteString("   (SUnload and SOnStop are inside the `case <-done` of the select that is SWait; the\n")
 	b.WriteString("   `case <-ctx.Done()` returns without them: checked by the translator). *)\n")
 	b.WriteString("From Coq Require Import List.\nImport ListNotations.\n\n")
-	b.WriteString("Inductive stop_op :=\n  | SDeferCloseExited | SExit | SCloseListeners | SShutdownWebsockets | SLock\n  | SSnapshotCloseClients | SUnlock | SStartWaiter | SWait | SUnload | SOnStop.\n\n")
+	b.WriteString("Inductive stop_op :=\n  | SDeferCloseExited | SExit | SCloseListeners | SShutdownWebsockets | SLock\n  | SSnapshotCloseClients | SSnapshotCloseConnecting | SUnlock | SStartWaiter | SWait | SUnload | SOnStop.\n\n")
 	b.WriteString("Definition stop_ops : list stop_op := [\n")
 	var names []string
 	for i, o := range ops {
